@@ -78,7 +78,8 @@ type locOut struct {
 	PosLine    int          `json:"pos_line"`
 	PosCol     int          `json:"pos_col"`
 	GoodPrefix int          `json:"good_prefix"` // on a tokenizer error: largest q <= cursor such that input[:q] tokenizes (-1: none found)
-	CtxSame    bool         `json:"ctx_same"` // TokenizeContext reports the same spans / error location
+	GoodLast   [2]int       `json:"good_last"`   // reported Start of the last non-EOF token of that prefix (0,0: none)
+	CtxSame    bool         `json:"ctx_same"`    // TokenizeContext reports the same spans / error location
 	Parse      *locParse    `json:"parse,omitempty"`
 }
 
@@ -118,8 +119,15 @@ func locOne(input []byte, tbl, parse bool) locOut {
 		for steps := 0; q >= 0 && steps < 700; q, steps = q-1, steps+1 {
 			tk, _ := tokenizer.New()
 			var e error
-			if guarded(func() { _, e = tk.Tokenize(input[:q]) }) == "" && e == nil {
+			var pt []models.TokenWithSpan
+			if guarded(func() { pt, e = tk.Tokenize(input[:q]) }) == "" && e == nil {
 				out.GoodPrefix = q
+				for k := len(pt) - 1; k >= 0; k-- {
+					if pt[k].Token.Type != models.TokenTypeEOF {
+						out.GoodLast = [2]int{pt[k].Start.Line, pt[k].Start.Column}
+						break
+					}
+				}
 				break
 			}
 		}
